@@ -100,6 +100,15 @@ func (t *Tree) Add(name string, msg *wire.MsgBlock, parent *Block, label Validit
 	return b
 }
 
+// Detached builds a block node under parent without inserting it into the tree (probe blocks).
+func (t *Tree) Detached(name string, msg *wire.MsgBlock, parent *Block, label Validity, rule string) *Block {
+	b := &Block{Name: name, Hash: msg.BlockHash(), Parent: parent, Height: parent.Height + 1, Msg: msg, Label: label, Rule: rule}
+	b.OwnWork = Work(msg.Header.Bits)
+	b.CumWork = new(big.Int).Add(parent.CumWork, b.OwnWork)
+	b.TotalTx = parent.TotalTx + uint64(len(msg.Transactions))
+	return b
+}
+
 // ChainValid reports whether the block and all its ancestors are labelled valid.
 func (b *Block) ChainValid() bool {
 	for n := b; n != nil; n = n.Parent {
